@@ -10,6 +10,14 @@
     reachable state), the node-subnet cache holds nothing but nodeSubnet(node), the pod lister shows the pod the
     API server has, the pod asks for a floating IP and is not assigned to a node yet.  Bind's Binding call is
     answered truthfully (`ch'.answer = .truthful`: a lost or refused answer is an API fault).  ANY allocation state, node set, pool objects, workloads.
+    What `Coherent` buys: the FloatingIP objects of the store are exactly the records of the memory cache
+    (`agree : ∀ ip, store.get ip = alloc.get ip`), a free address has no record, allocated and free addresses are
+    configured.  It is C05's invariant ("persisted FloatingIPs equal in-memory state", Galaxy.Props.C05 on the IPAM
+    model; for this model the first conjunct of the plugin invariant, `inv_run`), and it holds in every state reached by
+    histories of truth changes / Filter / Bind / reload WITH ANY FAULT ARGUMENTS (`state_hypotheses_hold_after_history`:
+    a failed Create of a multi-address allocation is rolled back in the store, so store = memory again).  A state in
+    which the store owns an address the cache lists as free is exactly a `Coherent` violation, and there
+    `filter_then_bind_succeeds` fails: `incoherent_store_counter`.
   * `WF s pod = true` (decidable, `Galaxy/Model/PluginC06.lean`): every pool of the configuration in force is well
     formed, pools are pairwise disjoint address sets, node subnets are pairwise identical or disjoint, the requested
     range lists are pairwise disjoint, names are non-empty without '_'.
@@ -697,5 +705,33 @@ theorem stale_cache_after_reload_counter :
   · intro h
     have := h "n1" sn1 (by decide)
     exact absurd this (by decide)
+
+/-- the state of the fresh-pod example, except that the STORE holds an object for 10.10.0.5 (under the pod's key) while
+    the memory cache lists the address as free - what a rollback that forgets the first created object leaves behind -/
+def leakRec : Rec := { key := keyOf podFresh, policy := 0, node := "n2", uid := 1 }
+def sLeak : State := { sFresh with store := Tbl.set sFresh.store (168427525 : Nat) leakRec }
+
+set_option maxRecDepth 100000 in
+/-- The hypothesis `Coherent` (store = memory, C05) is necessary for `filter_then_bind_succeeds`: in `sLeak` every other
+    hypothesis holds, Filter (which reads the memory cache) approves n2, and every Bind on n2 fails at the store Create of
+    10.10.0.5 (AlreadyExists) - for every choice, with no fault, on every retry.  Reachable states are coherent
+    (`state_hypotheses_hold_after_history`, any fault arguments), so on the code as it is this needs a defect in a
+    store-before-memory sequence, e.g. a rollback of AllocateInSubnetsAndIPRange that skips the first created object;
+    the harness reaches such states through histories with one injected fault (corpus/C06/retry-after-create-fault.ops,
+    signature filter-approved-bind-failed:already-exists:after-fault). -/
+theorem incoherent_store_counter :
+    coherentB sLeak = false ∧ ¬ Coherent sLeak ∧ cacheOKB sLeak = true ∧ WF sLeak podFresh = true ∧
+    Tbl.get sLeak.pods ("ns1", "a-0") = some podFresh ∧ Tbl.get sLeak.vPods ("ns1", "a-0") = some podFresh ∧
+    (step facts sLeak (.filter "ns1" "a-0" allNodes {} 0)).2.nodes = ["n2"] ∧
+    ∀ ch', (step facts (step facts sLeak (.filter "ns1" "a-0" allNodes {} 0)).1
+      (.bind "ns1" "a-0" 1 "n2" ch' 0 0)).2.res = .err "store" := by
+  refine ⟨by decide, ?_, by decide, by decide, by decide, by decide, by decide, fun ch' => ?_⟩
+  · intro h
+    have h1 := h.agree 168427525
+    have h2 := h.disjoint 168427525 (by decide)
+    rw [h2] at h1
+    exact absurd h1 (by decide)
+  · cases ch' with
+    | mk first pick answer => cases first <;> cases pick <;> cases answer <;> rfl
 
 end Galaxy.Props.C06
